@@ -13,7 +13,7 @@ If not, see <https://www.gnu.org/licenses/>.
 from __future__ import annotations
 from typing import Iterator, Mapping, Any, List, Optional, Callable
 
-from spil import Sid
+from spil import Sid, conf
 from spil.sid.read.util import first
 from spil.sid.read.tools import unfold_search
 
@@ -89,9 +89,9 @@ class Getter:
             Iterator over Mappings containing the retrieved data.
             One special field named "sid" contains the Sid
         """
-        # shortcut if Sid is not a search
+        # shortcut if Sid is not a search (an extension alias in the last part still needs unfolding)
         sid = Sid(search_sid)
-        if sid and not sid.is_search():
+        if sid and not sid.is_search() and sid.string.split(conf.sip)[-1] not in conf.extension_alias:
             generator = self.do_get([sid], attributes=attributes, sid_encode=sid_encode)
         else:
             search_sids = unfold_search(search_sid)
